@@ -63,6 +63,9 @@ Definition check_normtr (c : list float * res nat) : bool :=
 Definition check_dims (c : (nat * bounds) * res unit) : bool :=
   res_eqb unit_eqb (lattice_dims_check (fst (fst c)) (snd (fst c))) (snd c).
 
+Definition check_dims_surfs (c : (nat * bounds) * res unit) : bool :=
+  res_eqb unit_eqb (do nb <- square_nb (fst (fst c)); lattice_dims_check nb (snd (fst c))) (snd c).
+
 (* facet check *)
 Definition check_facet (c : (nat * nat) * res unit) : bool :=
   res_eqb unit_eqb (facet_check (fst (fst c)) (snd (fst c))) (snd c).
@@ -85,7 +88,7 @@ Definition cellsum_eqb (a b : cellsum (T:=float)) : bool :=
   && option_eqb fillid_eqb (cs_fill a) (cs_fill b)
   && (cs_filltr a =? cs_filltr b)%nat
   && optz_eqb (cs_lat a) (cs_lat b)
-  && option_eqb (fun x y => (fst x =? fst y)%nat && Bool.eqb (snd x) (snd y)) (cs_trcl a) (cs_trcl b).
+  && option_eqb Nat.eqb (cs_trcl a) (cs_trcl b).
 
 Record cellcase := mkCellCase {
   cc_trs : list (Z * nat); cc_imps : list (option float); cc_rank : nat;
